@@ -483,7 +483,7 @@ def _finish(prop, tier, seed, mod, results, dead, t0) -> int:
     if new_viol:
         return 1
     if inconclusive:
-        for x in inconclusive[:10]:
-            print(f"INCONCLUSIVE property={prop} reason={x[:300]}")
+        for x in inconclusive[:4]:
+            print(f"INCONCLUSIVE property={prop} reason=" + " | ".join(x.strip().splitlines()[-3:])[:400])
         return 2
     return 0
